@@ -82,6 +82,18 @@ def regex_uses(lit, subj):
         ("replaceAll-re", "%s.replaceAll(%sg, 'x');" % (s, lit)),
         ("split-re", "%s.split(%s);" % (s, lit)),
         ("regex-in-loop", "while (true) { %s.test('aab'); }" % lit),
+        # every other way a regular expression object comes into being or is reached
+        ("new RegExp(re)", "new RegExp(%s).test(%s);" % (lit, s)),
+        ("RegExp(re, flags)", "RegExp(%s, 'i').exec(%s);" % (lit, s)),
+        ("new RegExp(re).search", "%s.search(new RegExp(%s, 'm'));" % (s, lit)),
+        ("RegExp-from-source", "var r0 = %s; new RegExp(r0.source, r0.flags).test(%s);" % (lit, s)),
+        ("regexp-in-object", "var holder = {re: %s}; holder.re.test(%s);" % (lit, s)),
+        ("regexp-from-function", "(function () { return %s; })().test(%s);" % (lit, s)),
+        ("regexp-via-call", "RegExp.prototype.test ? %s.test.call(%s, %s) : %s.test(%s);" % (lit, lit, s, lit, s)),
+        ("regexp-sticky", "var ry = new RegExp(%s, 'y'); ry.lastIndex = 0; ry.test(%s);" % (ps, s)),
+        ("regexp-replace-fn", "%s.replace(%s, function (m) { return m; });" % (s, lit)),
+        ("regexp-split-limit", "%s.split(%s, 3);" % (s, lit)),
+        ("regexp-JSON-roundtrip-source", "new RegExp(JSON.parse(JSON.stringify({p: %s})).p).test(%s);" % (ps, s)),
     ]
 
 
